@@ -130,6 +130,9 @@ Proof. intros P S. apply sorted_lt_unique.
       rewrite lut_unsorted_is_stores. apply sort_perm. }
     split; intros I; [apply (Permutation_in _ Q I) | apply (Permutation_in _ (Permutation_sym Q) I)]. Qed.
 
+Lemma sorted_unique_stmt l : Permutation lut_stores l -> StronglySorted N.le l -> l = sort lut_unsorted.
+Proof. intros P S. change (sort lut_unsorted) with sorted_keys. exact (sorted_unique l P S). Qed.
+
 Lemma LUT_is_sorted_keys : LUT = map makeSyndromeMapEntry sorted_keys.
 Proof. reflexivity. Qed.
 
